@@ -515,6 +515,30 @@ def b_accum(ctx):
                         ctx.fail('C09:accumulation', f'closed form {reps} repetitions vs literal accumulation {passes} passes of pass 2 (+ pass 1)', {'pass1': t1, 'pass2': t2})
                     if abs(cyc - reps * n2) > 1e-9 * cyc:
                         ctx.fail('C09:lifetime-cycles', f'lifetime_n_cycles {cyc} != {reps} * {n2}', {'pass1': t1, 'pass2': t2})
+                    # the same table for three assessment points (index levels hysteresis_index / assessment_point_index, loads x1, x0.8, x0.6), rows listed
+                    # hysteresis by hysteresis (the recorder's order) and point by point: every point gets the lifetime it gets alone
+                    # (added after seed C09-g summed the damages by row POSITION instead of by assessment point)
+                    if ctx._i % 5 == 0 and len(tab) >= 2:
+                        facs = [1.0, 0.8, 0.6]
+                        alone = []
+                        for f_ in facs:
+                            c1 = DamageCalculatorPRAM(pd.DataFrame({'P_RAM': [r[0] * f_ for r in tab], 'is_closed_hysteresis': [r[1] for r in tab],
+                                                                    'run_index': [1] * n1 + [2] * n2, 'S_min': 0.0, 'S_max': 1.0}), w)
+                            alone.append((float(c1.lifetime_n_times_load_sequence), float(c1.lifetime_n_cycles)))
+                        ix = pd.MultiIndex.from_product([range(len(tab)), range(len(facs))], names=['hysteresis_index', 'assessment_point_index'])
+                        multi = pd.DataFrame({'P_RAM': [r[0] * f_ for r in tab for f_ in facs], 'is_closed_hysteresis': [r[1] for r in tab for _ in facs],
+                                              'run_index': [ri for ri in [1] * n1 + [2] * n2 for _ in facs], 'S_min': 0.0, 'S_max': 1.0}, index=ix)
+                        for oname, tabm in (('hysteresis-by-hysteresis', multi), ('point-by-point', multi.sort_index(level=['assessment_point_index', 'hysteresis_index']))):
+                            ctx.case(True, key=(tuple(t1), tuple(t2), oname))
+                            try:
+                                cm = DamageCalculatorPRAM(tabm.copy(), w)
+                                gt = np.atleast_1d(np.asarray(cm.lifetime_n_times_load_sequence, dtype=float))
+                                gc = np.atleast_1d(np.asarray(cm.lifetime_n_cycles, dtype=float))
+                            except Exception as e:   # noqa
+                                ctx.fail(f'C09:multi-point-table:{oname}:raises:{type(e).__name__}', f'DamageCalculatorPRAM on a three-point table ({oname}) raises {type(e).__name__}: {str(e)[:150]}', {'pass1': t1, 'pass2': t2})
+                                continue
+                            if len(gt) != 3 or any(abs(gt[k_] - alone[k_][0]) > 1e-9 * abs(alone[k_][0]) or abs(gc[k_] - alone[k_][1]) > 1e-9 * max(1.0, abs(alone[k_][1])) for k_ in range(3)):
+                                ctx.fail(f'C09:multi-point-table:{oname}', f'three-point table ({oname}): repetitions/cycles per point {gt.tolist()}/{gc.tolist()}, each point alone {alone}', {'pass1': t1, 'pass2': t2, 'factors': facs})
     # P_RAM values and the constants table
     if ctx.shard == 0:
         guideline = {'Steel': (0.35, -0.1), 'SteelCast': (0.35, 0.05), 'Al_wrought': (1.0, -0.04)}
